@@ -9,10 +9,10 @@
 package main
 
 import (
-	"sort"
 	"encoding/json"
 	"fmt"
 	"os"
+	"sort"
 	"strconv"
 	"strings"
 
